@@ -100,12 +100,12 @@ class Case:
 
     def header(self, cid, with_tab=False):
         h = f"case {cid} {self.family} {self.mode} bs={self.bs} w={self.w} key={hx(self.key)} iv={hx(self.iv)}"
-        if with_tab and self.w >= 101:
+        if with_tab and 101 <= self.w <= 109:
             h += " tab=" + self.meta.get("tab", "-")
         return h
 
     def real(self):
-        return self.w >= 101
+        return 101 <= self.w <= 109
 
     def text(self, cid=None, with_tab=False, ask_table=False):
         return "\n".join([self.header(self.cid if cid is None else cid, with_tab)] + self.ops +
